@@ -80,5 +80,11 @@ C07_T(e, o) ==
 C08_T(e, o) == (o.cls = "ok" /\ e.slack = 1 /\ e.fn \in StrRefFns /\ e.d # e.s /\ e.d # NULLP /\ e.slen # 0)
                  => \A i \in Rng(e.d, e.dmax) : i >= e.d + Len(RefCopy(e)) - 1 => o.mem[i] = Ex(0, {"C08"}) \/ o.mem[i] = Ex(0, {"C03", "C06"})
 
-AllProps(e, o) == C01_T(e, o) /\ C03_T(e, o) /\ C04_T(e, o) /\ C05_T(e, o) /\ C06_T(e, o) /\ C07_T(e, o) /\ C08_T(e, o)
+(* C10: queries never modify their operands; comparison results are antisymmetric *)
+C10_T(e, o) == e.fn \in StrQueryFns =>
+                 /\ \A i \in 1..Len(e.pre) : o.mem[i].k = "same"
+                 /\ (e.fn \in {"strcmp_s", "strcasecmp_s", "strcmpfld_s", "memcmp_s"} /\ o.cls = "ok" /\ o.rc = {EOK} /\ o.sg # 2 /\ e.dmax = e.slen) =>
+                       \A o2 \in Outcomes([e EXCEPT !.d = e.s, !.s = e.d]) : o2.sg = -o.sg
+
+AllProps(e, o) == C01_T(e, o) /\ C03_T(e, o) /\ C04_T(e, o) /\ C05_T(e, o) /\ C06_T(e, o) /\ C07_T(e, o) /\ C08_T(e, o) /\ C10_T(e, o)
 =============================================================================
